@@ -157,4 +157,18 @@ CHECKS = {
         assumptions=["the function name and the explicit tag of a call are functions of (file, line): the dynamic call-site registry identifies a site by (file, line, priority, format)",
                      "custom targets only; syslog/stderr/file/blackbox targets route through the same code"],
     ),
+    "C16": dict(
+        title="threaded logging: every queued message once, in order, before fini; control ops safe",
+        level="exploration",
+        design_ref="DESIGN.md section 4, C16",
+        technique="stateful property testing with real threads: generated orders of init/threaded/control/start/bursts/fini/re-init with perturbed timing, sequence-number oracle + loss accounting + ASan",
+        level_text="generated session scripts (any order of init, open, set-threaded, control ops, thread start, bursts up to beyond the 512000-byte backlog with the idle logging thread frozen, "
+                   "consumer delays, fini, re-init) run with real threads; target A must receive exactly the posted sequence minus the reported losses, in order, by the time qb_log_fini returns; "
+                   "target B takes the disruptive control ops and must at least see an increasing duplicate-free subsequence; hangs are violations",
+        level_note="trusted: the sequence oracle; interleavings inside log_thread.c are perturbed (sleeps, freeze signal), not owned: a race needing a specific interleaving may be missed by a given seed",
+        stages=[rnd("thread", "c16", 4000, 200000, essential=["control_while_worker_busy", "backlog_limit_hit", "undocumented_order", "reinit_after_fini", "control_before_start", "log_before_start",
+                                                                "never_started", "two_threaded_targets", "big_burst", "fini_with_backlog"])],
+        assumptions=["real pthreads: schedules are sampled by timing perturbation, not enumerated", "a failure must reproduce in at least 1 of 3 re-runs to be reported",
+                     "messages to a target that is disabled or closed while they are queued may be discarded (only target A, which stays enabled, is held to exactly-once delivery)"],
+    ),
 }
